@@ -159,6 +159,7 @@ type (
 		watchGroup *threading.RoutineGroup
 		done       chan lang.PlaceholderType
 		lock       sync.RWMutex
+		reloadLock sync.Mutex
 	}
 )
 
@@ -348,16 +349,29 @@ func (c *cluster) newClient() (EtcdClient, error) {
 }
 
 func (c *cluster) reload(cli EtcdClient) {
+	// one reload at a time
+	c.reloadLock.Lock()
+	defer c.reloadLock.Unlock()
+
 	c.lock.Lock()
 	// cancel the previous watches
 	close(c.done)
-	c.watchGroup.Wait()
-	var keys []watchKey
-	for wk, wval := range c.watchers {
-		keys = append(keys, wk)
+	group := c.watchGroup
+	for _, wval := range c.watchers {
 		if wval.cancel != nil {
 			wval.cancel()
 		}
+	}
+	c.lock.Unlock()
+
+	// wait without holding the lock: a watch goroutine may need it to finish the response
+	// it is handling; done stays closed meanwhile, so every watch loop ends
+	group.Wait()
+
+	c.lock.Lock()
+	var keys []watchKey
+	for wk := range c.watchers {
+		keys = append(keys, wk)
 	}
 
 	c.done = make(chan lang.PlaceholderType)
